@@ -93,7 +93,14 @@ theorem u64s_converse (e : Endian) (w : WordOrder) (bs : Bytes) (he : e ≠ .inv
     ∃ vs, Enc.bytesToUint64s e w bs = some vs ∧ vs.flatMap (Enc.uint64ToBytes e w) = bs :=
   EncLemmas.u64s_converse e w he hw bs hl
 
-/-- panic characterisation; holds for every selector value, valid or not -/
+/-- out-of-contract characterisation. `none` in the model marks the inputs on which the Go decoder
+    leaves its contract: a length that is not a multiple of the element size. What the Go code then
+    does depends on things the model does not carry: with `cap(in) = len(in)` and a valid
+    endianness it panics (slice bounds / index out of range — observed through the hooks); with
+    spare capacity the slice expressions `in[i:i+4]` read bytes beyond `len` and a value is
+    returned; with an invalid endianness the 32/64-bit decoders do not index at all and return
+    zeros. None of this is reachable through the public API: client and server check the byte
+    count against the quantity before decoding (C02 `validate`, C03 `classify`). -/
 theorem u16s_panic_iff (e : Endian) (bs : Bytes) :
     Enc.bytesToUint16s e bs = none ↔ bs.length % 2 ≠ 0 :=
   EncLemmas.u16s_none_iff e bs
